@@ -288,6 +288,20 @@ func c10Exhaustive(tier string) []corr.Case {
 			}
 		}
 	}
+	// cache times at the top of time.Duration's range (250 years; the largest whole number of seconds): nothing ever expires
+	for _, dur := range []int{7884000000, 9223372036} {
+		for _, ct := range []int{-7200, -10, -400000000} {
+			for _, bt := range []int{-9000, -5, 100} {
+				p := c10Files[0]
+				old, nw := genBytes(5, 1), genBytes(6, 2)
+				cases = append(cases, corr.Case{Lines: []string{fmt.Sprintf("case cache-mem %d", dur),
+					"b.mkdirall " + h(filepath.Dir(p)) + " 493", "b.create " + h(p), "h.write 0 " + corr.Hex(old), "h.close 0",
+					fmt.Sprintf("b.chtimes %s %d", h(p), ct), "readthrough " + h(p),
+					"b.openfile " + h(p) + " 514 420", "h.write 1 " + corr.Hex(nw), "h.close 1", fmt.Sprintf("b.chtimes %s %d", h(p), bt),
+					"readthrough " + h(p), "readthroughof " + h(p), "stat " + h(p), "snapshot"}})
+			}
+		}
+	}
 	// modification times less than a second apart: "newer" is decided on the full time stamps. The cached
 	// copy (stamped ct ms) is expired; the base is rewritten and stamped d ms later / earlier.
 	for _, ct := range []int{-7200000, -7200400, -3600001, -3999999} {
